@@ -163,3 +163,56 @@ def small_mesh(kind, perm=None):
         coords = newc
         groups = [(et, perm[np.asarray(cn, dtype=int)]) for et, cn in groups]
     return mesh_from_arrays(groups, coords)
+
+
+def gmsh_mesh(elemType, size=None, layers=2):
+    """Small unstructured mesh of the unit square / cube made by the real Mesher (gmsh)."""
+    from EasyFEA import ElemType
+    from EasyFEA.Geoms import Domain, Point
+
+    et = ElemType[elemType]
+    high = elemType in ("TRI10", "TRI15", "TETRA10", "HEXA20", "HEXA27", "PRISM15", "PRISM18", "QUAD9", "QUAD8", "TRI6")
+    if et in ElemType.Get_2D():
+        size = size or (0.75 if elemType in ("TRI10", "TRI15") else 0.6)
+        return Domain(Point(0, 0), Point(1, 1), size).Mesh_2D([], et)
+    if et in ElemType.Get_3D():
+        size = size or (1.0 if high else 0.7)
+        return Domain(Point(0, 0), Point(1, 1), size).Mesh_Extrude([], [0, 0, 1], [layers], et)
+    raise ValueError(elemType)
+
+
+def transform_mesh(mesh, A=None, b=None, perm=None):
+    """Affine image x -> A x + b and/or node renumbering new_id = perm[old_id] of a real mesh (all groups rebuilt)."""
+    coords = np.asarray(mesh.coord, dtype=float)
+    if A is not None:
+        coords = coords @ np.asarray(A, dtype=float).T
+    if b is not None:
+        coords = coords + np.asarray(b, dtype=float)
+    groups = []
+    for et, g in mesh.dict_groupElem.items():
+        groups.append((et.name, np.asarray(g.connect, dtype=int)))
+    if perm is not None:
+        perm = np.asarray(perm, dtype=int)
+        newc = np.zeros_like(coords)
+        newc[perm] = coords
+        coords = newc
+        groups = [(et, perm[cn]) for et, cn in groups]
+    return mesh_from_arrays(groups, coords)
+
+
+def mixed_mesh_interior():
+    """3x3 nodes, two quadrangles + four triangles, one (off-centre) interior node; boundary segments."""
+    X = [(0, 0), (1, 0), (2, 0), (0, 1), (1.1, 0.9), (2, 1), (0, 2), (1, 2), (2, 2)]
+    coords = np.zeros((9, 3))
+    coords[:, :2] = X
+    groups = [("QUAD4", [[0, 1, 4, 3], [1, 2, 5, 4]]), ("TRI3", [[3, 4, 7], [3, 7, 6], [4, 5, 8], [4, 8, 7]]),
+              ("SEG2", [[0, 1], [1, 2], [2, 5], [5, 8], [8, 7], [7, 6], [6, 3], [3, 0]]), ("POINT", [[0], [2], [8], [6]])]
+    return mesh_from_arrays(groups, coords)
+
+
+def boundary_nodes(mesh):
+    """Nodes of the boundary groups (dimension dim-1) of a mesh."""
+    out = set()
+    for g in mesh.Get_list_groupElem(mesh.dim - 1):
+        out |= set(np.asarray(g.connect).ravel().tolist())
+    return np.array(sorted(out), dtype=int)
